@@ -27,8 +27,37 @@ def docOf (mask : Nat) : List Nat :=
   (match Model.beginMap present.length with | .ok b => b | .error _ => []) ++
     present.flatMap fun (_, k, v) => (match Model.writeStr (ascii k) with | .ok b => b | .error _ => []) ++ v
 
+/-- `mp.obj2`: field before the first base, two base classes, fields between and after (declaration order) -/
+def fields2 : List (Nat × String × List Nat) :=
+  [ (1, "pre", Model.writeI32 5),
+    (2, "b0", Model.writeI32 10),
+    (8, "mid", match Model.writeStr (ascii "m") with | .ok b => b | .error _ => []),
+    (4, "c0", Model.writeI32 30),
+    (0, "c1", Model.writeI32 31),
+    (16, "post", Model.writeBool false) ]
+
+def docOf2 (mask : Nat) : List Nat :=
+  let present := fields2.filter fun (bit, _, _) => bit == 0 || mask / bit % 2 == 1
+  (match Model.beginMap present.length with | .ok b => b | .error _ => []) ++
+    present.flatMap fun (_, k, v) => (match Model.writeStr (ascii k) with | .ok b => b | .error _ => []) ++ v
+
+def judge (docs : List (List Nat)) (impl : Option String) : String :=
+  match impl with
+  | some i =>
+    match (i.splitOn ";").mapM parseBytes with
+    | some ds =>
+      if ds.length ≠ docs.length then "bad:one_document_per_object_expected"
+      else if ds.any (fun d => Spec.objects 1 d != some []) then "bad:document_is_not_exactly_one_wellformed_object"
+      else if ds == docs then "ok" else "bad:document_differs_from_the_fields_written"
+    | none => "bad:save_failed_or_unparsable_answer"
+  | none => "nospec"
+
 def handle (toks : List String) (impl : Option String) : Option (String × String) :=
   match toks with
+  | ["mp.obj2", _src, masks] => do
+    let ms ← (masks.splitOn ";").mapM (·.toNat?)
+    let docs := ms.map docOf2
+    pure (String.intercalate ";" (docs.map hexBytes), judge docs impl)
   | ["mp.obj", _src, masks] => do
     let ms ← (masks.splitOn ";").mapM (·.toNat?)
     let docs := ms.map docOf
